@@ -29,7 +29,7 @@ EPS = 0.005
 
 
 def gen_plan(ch: Chooser, tier: str) -> dict[str, Any]:
-    plan = spawning.gen_spawning_plan(ch, daemons=(0, 0), timers=(1, 3), pauses=False, exits=False,
+    plan = spawning.gen_spawning_plan(ch, daemons=(0, 0), timers=(1, 3), pauses=False, exits=False, sync_share=ch.choice([0.0, 0.0, 0.5]),
                                       max_objects=2, horizon=ch.choice([12.0, 25.0]))
     plan['until'] = plan['horizon'] + 20.0
     return plan
